@@ -355,6 +355,94 @@ def resume_other_window(profile, ver, w1, w2, clean_next, when):
     return s.lines
 
 
+def pad_len(packet, nbytes):
+    """the same packet with its remaining length written on `nbytes` bytes (continuation bytes with zero digits appended): the
+    variable-length field does not have to be minimal for a decoder to accept it"""
+    i, L, mult = 1, 0, 1
+    while True:
+        b = packet[i]; L += (b & 0x7F) * mult; mult *= 128; i += 1
+        if not b & 0x80:
+            break
+    digits = []
+    v = L
+    for _ in range(nbytes):
+        digits.append(v % 128); v //= 128
+    assert v == 0
+    field = bytes([d | 0x80 for d in digits[:-1]] + [digits[-1]])
+    return bytes(packet[:1]) + field + bytes(packet[i:])
+
+
+@robust
+def nonminimal_lengths(profile, ver, nbytes, refuse):
+    """a session in which every packet of the broker carries its remaining length on `nbytes` bytes: refused and accepted CONNACK, the
+    acknowledgements of every kind of request, inbound PUBLISH at every QoS, PUBREL, PINGRESP"""
+    s = Script(profile)
+    s.do('build a0'); s.do('sethandlers 0 7'); s.do('connect 0 %s 7 %s 1' % (s_tok('nm'), ver))
+    if refuse:
+        s.do('recv 0 %s' % hx(pad_len(connack(5, 0), nbytes)))
+        s.do('publish 0 %s b:41 0 0' % s_tok('t')); s.do('subscribe 0 %s 1' % s_tok('s'))
+        s.do('connect 0 %s 7 %s 1' % (s_tok('nm'), ver))
+    s.do('recv 0 %s' % hx(pad_len(connack(0, 0), nbytes))); s.do('setwin 0 4')
+    ids = {}
+    def last_id():
+        return int(next(o for o in s.last if o.startswith('ret pending')).split()[3])
+    if profile in (2, 3):
+        s.do('publish 0 %s b:41 1 0' % s_tok('a')); ids['q1'] = last_id()
+        s.do('publish 0 %s b:42 2 0' % s_tok('b')); ids['q2'] = last_id()
+    if profile in (1, 3):
+        s.do('subscribe 0 %s 1' % s_tok('s/#')); ids['sub'] = last_id()
+        s.do('unsubscribe 0 %s' % s_tok('u')); ids['unsub'] = last_id()
+    s.fire('pingloop')
+    s.do('recv 0 %s' % hx(pad_len(pkt(0xD0), nbytes)))
+    if 'q1' in ids:
+        s.do('recv 0 %s' % hx(pad_len(ack(0x40, ids['q1']), nbytes)))
+        s.do('recv 0 %s' % hx(pad_len(ack(0x50, ids['q2']), nbytes)))
+        s.do('recv 0 %s' % hx(pad_len(ack(0x70, ids['q2']), nbytes)))
+    if 'sub' in ids:
+        s.do('recv 0 %s' % hx(pad_len(suback(ids['sub'], [1]), nbytes)))
+        s.do('recv 0 %s' % hx(pad_len(ack(0xB0, ids['unsub']), nbytes)))
+        s.do('recv 0 %s' % hx(pad_len(publish_pkt('t', b'x', 0), nbytes)))
+        s.do('recv 0 %s' % hx(pad_len(publish_pkt('t', b'xy', 1, mid=10), nbytes)))
+        s.do('recv 0 %s' % hx(pad_len(publish_pkt('q/\u00f1', b'z' * 130, 2, mid=11), max(nbytes, 2))))
+        s.do('recv 0 %s' % hx(pad_len(ack(0x62, 11), nbytes)))
+    s.do('lost 0 done'); s.fire_all(3)
+    return s.lines
+
+
+SPECIAL_TOPICS = ['\ufeffsensors/t', '\ufeff', 'a\ufeff', '\ufffe', '$SYS/broker/x', 'caf\u00e9/\u6e29', '\U0001f600', 'a/' + 'b' * 200, ' ', 'a//b', '+/#',
+                  '\u2028', '\u00a0x', 'e\u0301']
+
+
+@robust
+def special_topics(profile, ver):
+    """inbound PUBLISH at every QoS under topics a decoder might be tempted to normalise (a leading U+FEFF is text, not a byte order mark; a
+    non-character, separators, combining sequences, astral code points, '$' topics, wildcard characters): delivered exactly as carried"""
+    s = Script(profile)
+    s.do('build a0'); s.do('sethandlers 0 7'); s.do('connect 0 %s 0 %s 1' % (s_tok('st'), ver)); s.do('recv 0 20020000')
+    mid = 100
+    for i, t in enumerate(SPECIAL_TOPICS):
+        q = i % 3
+        mid += 1
+        s.do('recv 0 %s' % hx(publish_pkt(t, bytes([0x30 + i]), q, mid=mid, retain=bool(i % 2))))
+        if q == 2:
+            s.do('recv 0 %s' % hx(ack(0x62, mid)))
+    for i, t in enumerate(SPECIAL_TOPICS[:4]):
+        mid += 1
+        s.do('recv 0 %s' % hx(publish_pkt(t, b'again', 2, mid=mid)))
+        s.do('recv 0 %s' % hx(publish_pkt(t, b'again', 2, mid=mid, dup=True)))
+        s.do('recv 0 %s' % hx(ack(0x62, mid)))
+    if profile in (1, 3):
+        for t in SPECIAL_TOPICS[:6]:
+            s.do('subscribe 0 %s 1' % s_tok(t))
+            i = int(next(o for o in s.last if o.startswith('ret pending')).split()[3])
+            s.do('recv 0 %s' % hx(suback(i, [1])))
+    if profile in (2, 3):
+        for t in SPECIAL_TOPICS[:6]:
+            s.do('publish 0 %s b:41 0 0' % s_tok(t))
+    s.do('lost 0 done'); s.fire_all(2)
+    return s.lines
+
+
 def for_prop(prop, ctx):
     """the long/large scenarios relevant to a property, as (name, lines)"""
     quick = ctx['tier'] == 'quick'
@@ -409,6 +497,16 @@ def for_prop(prop, ctx):
                         continue
                     add('resume-window-%d-%d-%s-%d' % (w1, w2, when, clean_next),
                         resume_other_window(3 if w1 != 2 else 2, '311' if w1 != 3 else '31', w1, w2, clean_next, when))
+    if prop in ('C06', 'C16', 'C02', 'C07', 'C18', 'C10'):
+        add('special-topics-311', special_topics(3, '311'))
+        add('special-topics-31', special_topics(1 if prop in ('C06', 'C16') else 3, '31'))
+    if prop in ('C14', 'C16', 'C03', 'C04', 'C05', 'C06', 'C07', 'C15', 'C02'):
+        for nb in (2, 3, 4):
+            for refuse in (True, False):
+                if quick and nb == 3 and not refuse:
+                    continue
+                prof = {2: 3, 3: 1, 4: 2}[nb] if prop not in ('C05', 'C06', 'C07') else 3
+                add('nonminimal-%d-%d' % (nb, int(refuse)), nonminimal_lengths(prof, '311' if nb != 3 else '31', nb, refuse))
     if prop in ('C07', 'C01', 'C02'):
         for n in (125, 126, 127, 200):
             add('topics-%d' % n, many_topics(3 if n != 127 else 1, '311' if n % 2 else '31', n))
